@@ -206,7 +206,31 @@ def check(P: Project, R: Report) -> None:
     R.need(len(inits) == 1, f"anchor: expected one ProtocolHandler method creating sessions, found {len(inits)}")
     ih = inits[0]
     R.fn(ih.fq)
-    ia, io = run_paths(ih.node, event_of=lambda c, st, an: ("create:" + ",".join(subst_text(a, st) for a in c.args)) if call_name(c).endswith(".create_session") else None, fallible=False)
+    def _answer(stmt, st, an):
+        # the answer's version: the value under 'protocolVersion' of a dict display (or a store under that key)
+        if isinstance(stmt, (ast.Assign, ast.AnnAssign, ast.Return, ast.Expr)) and stmt.value is not None:
+            for d_ in ast.walk(stmt.value):
+                if isinstance(d_, ast.Dict):
+                    for k_, v_ in zip(d_.keys, d_.values):
+                        if isinstance(k_, ast.Constant) and k_.value == "protocolVersion":
+                            return "answer:" + subst_text(v_, st)
+        if isinstance(stmt, ast.Assign) and any(isinstance(t, ast.Subscript) and isinstance(t.slice, ast.Constant) and t.slice.value == "protocolVersion" for t in stmt.targets):
+            return "answer:" + subst_text(stmt.value, st)
+        return None
+
+    ia, io = run_paths(ih.node, event_of=lambda c, st, an: ("create:" + "\x1f".join(subst_text(a, st) for a in list(c.args) + [k.value for k in c.keywords])) if call_name(c).endswith(".create_session") else None, stmt_event_of=_answer, fallible=False)
+    n_ans = 0
+    for st, node in io.ret:
+        created = [e[len("create:"):].split("\x1f") for e in st.events if e.startswith("create:")]
+        answers = [e[len("answer:"):] for e in st.events if e.startswith("answer:")]
+        if len(created) == 1 and len(created[0]) >= 2 and answers:
+            n_ans += 1
+            rec, ans = created[0][1], answers[-1]
+            same_v = rec == ans or ia.origin(rec) == ia.origin(ans)
+            R.ob("R2", "the session records the version the handler answers", same_v, f"{ih.module.rel}:{node.lineno}",
+                 f"the session is created with `{ia.origin(rec)[:70]}` while the answer carries `{ia.origin(ans)[:70]}`: for a request the handler does not answer verbatim (unsupported or padded version) the record differs from what the client was told",
+                 sample=f"R2 create_session(…, {rec[:40]}) and protocolVersion: {ans[:40]}")
+    R.need(n_ans >= 1, "anchor: no returning path of the initialize handler both creates a session and builds the answer's protocolVersion")
     for st, node in io.ret:
         n = st.count_prefix("create:")
         R.ob("R2", "initialize creates exactly one session per successful path", n == 1, f"{ih.module.rel}:{node.lineno}", f"{n} create_session calls on this path")
